@@ -56,6 +56,8 @@ pub enum Pos {
     LEnter(u64),
     /// the initialiser of cell c returned; the once-cell stores next
     LStore(u64),
+    /// the step did not come back: the thread blocks inside the library at a place without a yield point
+    Blocked,
     Done,
     Panicked,
     Aborted,
@@ -72,6 +74,7 @@ impl Pos {
             Pos::Popping(r) => format!("o{}", r),
             Pos::LEnter(c) => format!("le{}", c),
             Pos::LStore(c) => format!("ls{}", c),
+            Pos::Blocked => "b".into(),
             Pos::Done => "d".into(),
             Pos::Panicked => "x".into(),
             Pos::Aborted => "a".into(),
@@ -1010,22 +1013,22 @@ fn child_work(driver: &Driver, seed: u64, thorough: bool, progress_path: &str, o
     let t0 = Instant::now();
     let mut lor = Oracle::new("c13.lazy");
     rep.streams.push(lazy::stream_lazy_witness(driver, thorough, &mut lor, &progress));
-    rep.streams.push(lazy::stream_lazy_random(driver, seed, 0, if thorough { 20_000 } else { 700 }, &mut lor, &progress));
+    rep.streams.push(lazy::stream_lazy_random(driver, seed, 0, if thorough { 20_000 } else { 600 }, &mut lor, &progress));
     rep.oracles.push(lor);
-    rep.oracles.push(lazy::oracle_lazy_stress(seed, 0, if thorough { 20_000 } else { 500 }, 1, &progress));
+    rep.oracles.push(lazy::oracle_lazy_stress(seed, 0, if thorough { 20_000 } else { 400 }, 1, &progress));
     rep.oracles.push(lazy::oracle_registries());
     rep.extra.insert("seconds_lazy".into(), json!(t0.elapsed().as_secs_f64()));
     let mut or = Oracle::new("c13.sequential");
     let t0 = Instant::now();
-    rep.streams.push(stream_exhaustive(driver, seed, 0, if thorough { 40 } else { 6 }, if thorough { 20_000 } else { 2000 }, if thorough { u64::MAX } else { 20 }, &mut or, &progress));
+    rep.streams.push(stream_exhaustive(driver, seed, 0, if thorough { 40 } else { 5 }, if thorough { 20_000 } else { 1200 }, if thorough { u64::MAX } else { 10 }, &mut or, &progress));
     rep.extra.insert("seconds_exhaustive".into(), json!(t0.elapsed().as_secs_f64()));
     let t0 = Instant::now();
-    rep.streams.push(stream_reduced(driver, seed, 0, if thorough { 200 } else { 30 }, if thorough { 1500 } else { 150 }, if thorough { u64::MAX } else { 25 }, &mut or, &progress));
+    rep.streams.push(stream_reduced(driver, seed, 0, if thorough { 200 } else { 20 }, if thorough { 1500 } else { 150 }, if thorough { u64::MAX } else { 10 }, &mut or, &progress));
     rep.extra.insert("seconds_reduced".into(), json!(t0.elapsed().as_secs_f64()));
-    rep.streams.push(stream_random(driver, "c13.random", SchedMode::Baton, seed, 0, if thorough { 20_000 } else { 1200 }, &mut or, &progress));
-    rep.streams.push(stream_random(driver, "c13.os", SchedMode::Token, seed, 0, if thorough { 10_000 } else { 500 }, &mut or, &progress));
+    rep.streams.push(stream_random(driver, "c13.random", SchedMode::Baton, seed, 0, if thorough { 20_000 } else { 1000 }, &mut or, &progress));
+    rep.streams.push(stream_random(driver, "c13.os", SchedMode::Token, seed, 0, if thorough { 10_000 } else { 400 }, &mut or, &progress));
     rep.oracles.push(or);
-    rep.oracles.push(oracle_stress(seed, 0, if thorough { 20_000 } else { 1200 }, 1, &progress));
+    rep.oracles.push(oracle_stress(seed, 0, if thorough { 20_000 } else { 1000 }, 1, &progress));
     rep
 }
 
